@@ -66,7 +66,7 @@ def counting_builtins(counter):
 def cases(draw, max_nodes):
     failing = draw(st.sampled_from([0, 0, 0, 2, 3]))
     flaky = draw(st.booleans())
-    spec = draw(specs.plan_specs(max_nodes=max_nodes, min_nodes=2, opaque=False, failures=failing, flaky=flaky))
+    spec = draw(specs.plan_specs(max_nodes=max_nodes, min_nodes=2, opaque=False, failures=failing, flaky=flaky, lits=2))
     cfg = draw(specs.run_configs(nodes=len(spec["nodes"]), max_errors=bool(failing), retry=True))
     return {"spec": spec, "cfg": cfg, "sched": draw(harness.schedules())}
 
